@@ -427,9 +427,15 @@ def c09(scen, rec, f):
     """get_reusable_executor returns a live, correctly configured singleton"""
     out = []
     last_id = -1
+    replaced = set()        # ids of instances a call has replaced (C09_replaced_never_returned_again)
     for c in sorted(rec.get("reuse_calls", []), key=lambda c: c["t1"]):
         a, b, r = c["args"], c["before"], c["after"]
         single = len(scen["users"]) == 1 and not rec.get("cb_resizes")     # one requester at a time
+        if single and r["id"] in replaced:
+            out.append(("C09", "replaced-instance-returned-again", f"executor id {r['id']} was replaced by an earlier call "
+                        f"and is handed out again ({c})"))
+        if single and b is not None and r["id"] != b["id"]:
+            replaced.add(b["id"])
         want_mw = a.get("max_workers") or (b["mw"] if (a.get("reuse") is True and b) else scen.get("cpu_count", 2))
         if single and r["mw"] != want_mw:
             out.append(("C09", "wrong-size", f"asked for max_workers={want_mw}, executor has {r['mw']} ({c})"))
